@@ -23,6 +23,8 @@ E = "@E@"      # sibling executed on every iteration, value ignored
 T = "@T@"      # executed sibling whose value is true
 F = "@F@"      # executed sibling whose value is #f
 SLOTS = (S, E, T, F)
+MARK0 = 7000   # accumulator increments above MARK0 (and below MARK0 + 100) mark the never-executed sibling self-calls
+REC_NAMES = ("loop", "pong", "pang")
 
 
 def fill(t, m):
@@ -76,6 +78,8 @@ CONTEXTS = [
     ("named-let-exit", True, ["let", "lp2", [["k", 0]], ["if", ["<", "k", 1], ["lp2", ["+", "k", 1]], ["begin", E, X]]]),
     ("begin-last", True, ["begin", E, X]),
     ("begin-3", True, ["begin", E, 1, E, X]),
+    ("begin-const-last", True, ["begin", E, ["quote", "step"], X]),      # constants generate no code in a sequence
+    ("body-const-last", True, [["lambda", ["t"], E, "#\\a", False, X], 1]),
     ("lambda-body", True, [["lambda", ["t"], E, X], 1]),
     ("internal-define-body", True, [["lambda", [], ["define", "t", 1], E, X]]),
     ("do-result", True, ["do", [["k", 0, ["+", "k", 1]]], [[">", "k", 0], E, X]]),
@@ -130,7 +134,9 @@ SIBLINGS = [
 DEFAULT_SIB = {S: 0, E: 1, T: [">", "i", 0], F: ["<", "i", 0]}
 
 CALLEES = ["fixed", "rest-used", "rest-unused", "mutual", "apply", "mutual3", "apply-rest", "fixed8", "mutual-arity",
-           "named-let", "internal-define", "apply8"]
+           "named-let", "internal-define", "apply8", "mutual-grow", "apply40", "fixed20"]
+# the same with the procedures defined inside a top-level let (code the simplifier never reaches)
+TOPLET = ["toplet:" + c for c in CALLEES if c not in ("named-let", "internal-define")]
 EXITS = ["value", "set", "begin-set", "opapp"]
 
 
@@ -154,8 +160,8 @@ def sib_map(sib, rec):
 
 
 def compatible(c, sib):
-    if sib[1] is None and c[0] == "if-one-armed":
-        return False                    # the sibling of a one-armed if inside a begin is not in tail position
+    # (a self-call in the one-armed if of `if-one-armed` is a NON-tail site next to the tail site X: the expected flag is
+    # computed per call site by surface_sites, so mixed programs are fine)
     m = sib_map(sib, 0)
     return all(s in m for s in ctx_slots(c))
 
@@ -164,39 +170,60 @@ def loop_program(ctxs, callee, n, probe, sibs=None, exit_kind="value"):
     """ctxs: list of contexts, outermost first; sibs: one sibling (or None = defaults) per context.
     returns (forms, name of the global whose call is inspected)"""
     sibs = sibs or [None] * len(ctxs)
-    nxt = ["+", ["car", "r"], 1] if callee in ("rest-used", "apply-rest") else ["+", "acc", 1]
-    for c, sb in zip(ctxs, sibs):
-        m = dict(DEFAULT_SIB)
-        if sb is not None:
-            m.update(sib_map(sb, 0))
-        if c[0] == "operand-begin":
-            nxt = ["begin", m[E], nxt]
-        elif c[0] == "operand-if":
-            nxt = ["if", m[T], nxt, 0]
-    dec = ["-", "i", 1]
-    rec = {"fixed": ["loop", dec, nxt],
-           "rest-used": ["loop", dec, nxt],
-           "rest-unused": ["loop", dec, nxt, 0, 0],
-           "mutual": ["pong", dec, nxt],
-           "mutual3": ["pong", dec, nxt],
-           "fixed8": ["loop", dec, nxt, 1, 2, 3, 4, 5, 6],
-           "mutual-arity": ["pong", dec, nxt, 7, 8, 9],
-           "named-let": ["loop", dec, nxt],
-           "internal-define": ["loop", dec, nxt],
-           "apply": ["apply", "loop", ["list", dec, nxt]],
-           "apply8": ["apply", "loop", ["list", dec, nxt, 1, 2, 3, 4, 5, 6]],
-           "apply-rest": ["apply", "loop", dec, ["list", nxt]]}[callee]
-    for c, sb in zip(ctxs, sibs):
-        if c[0] == "operator-begin":
+    toplet = callee.startswith("toplet:")
+    if toplet:
+        callee = callee[len("toplet:"):]
+
+    def define(head, body):
+        """(define (f . params) body..), or - placement `toplet` - (define f (let ((state 0)) (lambda params body..))):
+        simplify.c does not descend into a lambda applied at top level (its `lambda == NULL` case), so there the code
+        generator sees the program as written: constants and references as non-final sequence elements, constant tests"""
+        if not toplet:
+            return ["define", head] + body
+        return ["define", head[0], ["let", [["state", 0]], ["lambda", head[1:]] + body]]
+
+    def make_rec(inc):
+        """the recursive call; `inc` = the increment of the accumulator.  The call X of the loop uses 1; a self-call
+        standing in a sibling slot (never executed) uses a marker MARK0+1+j, by which the call SITE is recognised in
+        the bytecode (the PUSH of the marker precedes the call) and in the surface program (surface_sites)."""
+        nxt = ["+", ["car", "r"], inc] if callee in ("rest-used", "apply-rest") else ["+", "acc", inc]
+        for c, sb in zip(ctxs, sibs):
             m = dict(DEFAULT_SIB)
             if sb is not None:
                 m.update(sib_map(sb, 0))
-            rec = [["begin", m[E], rec[0]]] + rec[1:]
+            if c[0] == "operand-begin":
+                nxt = ["begin", m[E], nxt]
+            elif c[0] == "operand-if":
+                nxt = ["if", m[T], nxt, 0]
+        dec = ["-", "i", 1]
+        rec = {"fixed": ["loop", dec, nxt],
+               "rest-used": ["loop", dec, nxt],
+               "rest-unused": ["loop", dec, nxt, 0, 0],
+               "mutual": ["pong", dec, nxt],
+               "mutual3": ["pong", dec, nxt],
+               "fixed8": ["loop", dec, nxt, 1, 2, 3, 4, 5, 6],
+               "mutual-arity": ["pong", dec, nxt, 7, 8, 9],
+               "mutual-grow": ["pong", dec, nxt, 1, 2, 3, 4, 5, 6],
+               "named-let": ["loop", dec, nxt],
+               "internal-define": ["loop", dec, nxt],
+               "apply": ["apply", "loop", ["list", dec, nxt]],
+               "apply8": ["apply", "loop", ["list", dec, nxt, 1, 2, 3, 4, 5, 6]],
+               "apply40": ["apply", "loop", dec, nxt, "pad38"],
+               "fixed20": ["loop", dec, nxt] + list(range(1, 19)),
+               "apply-rest": ["apply", "loop", dec, ["list", nxt]]}[callee]
+        for c, sb in zip(ctxs, sibs):
+            if c[0] == "operator-begin":
+                m = dict(DEFAULT_SIB)
+                if sb is not None:
+                    m.update(sib_map(sb, 0))
+                rec = [["begin", m[E], rec[0]]] + rec[1:]
+        return rec
+    rec = make_rec(1)
     body = rec
-    for c, sb in reversed(list(zip(ctxs, sibs))):
+    for j, c, sb in reversed(list(zip(range(len(ctxs)), ctxs, sibs))):
         m = dict(DEFAULT_SIB)
         if sb is not None:
-            m.update(sib_map(sb, rec))
+            m.update(sib_map(sb, make_rec(MARK0 + 1 + j)))
         m[X] = body
         body = fill(c[2], m)
     restp = callee in ("rest-used", "apply-rest")
@@ -204,10 +231,13 @@ def loop_program(ctxs, callee, n, probe, sibs=None, exit_kind="value"):
             "mutual": ["loop", "i", "acc"], "mutual3": ["loop", "i", "acc"], "apply": ["loop", "i", "acc"],
             "apply-rest": ["loop", "i", ".", "r"], "fixed8": ["loop", "i", "acc", "a", "b", "c", "d", "e", "f"],
             "apply8": ["loop", "i", "acc", "a", "b", "c", "d", "e", "f"],
-            "mutual-arity": ["loop", "i", "acc"], "named-let": ["loop", "i", "acc"], "internal-define": ["loop", "i", "acc"]}[callee]
+            "apply40": ["loop", "i", "acc", ".", "r"], "fixed20": ["loop", "i", "acc"] + ["a%d" % k for k in range(1, 19)],
+            "mutual-arity": ["loop", "i", "acc"], "mutual-grow": ["loop", "i", "acc"], "named-let": ["loop", "i", "acc"], "internal-define": ["loop", "i", "acc"]}[callee]
     acc = ["car", "r"] if restp else "acc"
     pre = [["note", "i"]] if probe else []
     forms = [["define", "g0", 0], ["define", "result", False], ["define", ["ident", "x"], "x"]]
+    if callee == "apply40":
+        forms.append(["define", "pad38", ["quote", list(range(1, 39))]])
     if probe:
         forms += [["define", "top-first", 0], ["define", "top-late", 0],
                   ["define", ["note", "i"], ["if", ["=", "i", n], ["set!", "top-first", ["verif-top"]],
@@ -228,25 +258,33 @@ def loop_program(ctxs, callee, n, probe, sibs=None, exit_kind="value"):
             call = ["begin", call, "result"]
         forms.append(["let", [["res", call]], ["cons", "res", ["-", "top-late", "top-first"]]] if probe else call)
         return forms, None
-    forms.append(["define", head] + loopbody)
+    forms.append(define(head, loopbody))
     if callee == "mutual-arity":
         # the partner takes more arguments than the loop: every tail call changes the size of the reused frame
-        forms.append(["define", ["pong", "i", "acc", "x", "y", "z"], ["if", ["=", "i", 0], ex, ["loop", ["-", "i", 1], ["+", "acc", 1]]]])
+        forms.append(define(["pong", "i", "acc", "x", "y", "z"], [["if", ["=", "i", 0], ex, ["loop", ["-", "i", 1], ["+", "acc", 1]]]]))
+    if callee == "mutual-grow":
+        # the partner takes 6 more arguments: the new arguments of the tail call do not fit into the caller's frame, the
+        # source and destination regions of the copy in TAIL_CALL overlap (and back: 6 fewer)
+        forms.append(define(["pong", "i", "acc", "a", "b", "c", "d", "e", "f"], [["if", ["=", "i", 0], ex, ["loop", ["-", "i", 1], ["+", "acc", "a"]]]]))
     if callee == "mutual":
-        forms.append(["define", ["pong", "i", "acc"], ["if", ["=", "i", 0], ex, ["loop", ["-", "i", 1], ["+", "acc", 1]]]])
+        forms.append(define(["pong", "i", "acc"], [["if", ["=", "i", 0], ex, ["loop", ["-", "i", 1], ["+", "acc", 1]]]]))
     if callee == "mutual3":
         # three procedures, the other two reach the exit through a when / a cond clause
-        forms.append(["define", ["pong", "i", "acc"], ["cond", [["=", "i", 0], ex], ["else", ["pang", ["-", "i", 1], ["+", "acc", 1]]]]])
-        forms.append(["define", ["pang", "i", "acc"], ["if", [">", "i", 0], ["loop", ["-", "i", 1], ["+", "acc", 1]], ex]])
+        forms.append(define(["pong", "i", "acc"], [["cond", [["=", "i", 0], ex], ["else", ["pang", ["-", "i", 1], ["+", "acc", 1]]]]]))
+        forms.append(define(["pang", "i", "acc"], [["if", [">", "i", 0], ["loop", ["-", "i", 1], ["+", "acc", 1]], ex]]))
     # same number of surplus arguments as the recursive call: with an unused rest parameter they stay in the frame
     call = ["loop", n, 0, 0, 0] if callee == "rest-unused" else ["loop", n, 0]
     if callee in ("fixed8", "apply8"):
         call = ["loop", n, 0, 1, 2, 3, 4, 5, 6]
+    if callee == "fixed20":
+        call = ["loop", n, 0] + list(range(1, 19))
+    if callee == "apply40":
+        call = ["apply", "loop", n, 0, "pad38"]
     if exit_kind in ("set", "begin-set"):
         call = ["begin", call, "result"]
     # the loop must run before the probes are read: operands are evaluated right to left
     forms.append(["let", [["res", call]], ["cons", "res", ["-", "top-late", "top-first"]]] if probe else call)
-    target = {"mutual": "pong", "mutual3": "pong", "mutual-arity": "pong", "apply": "apply", "apply-rest": "apply", "apply8": "apply"}.get(callee, "loop")
+    target = {"mutual": "pong", "mutual3": "pong", "mutual-arity": "pong", "mutual-grow": "pong", "apply": "apply", "apply-rest": "apply", "apply8": "apply", "apply40": "apply"}.get(callee, "loop")
     return forms, target
 
 
@@ -305,8 +343,161 @@ def calls_to(bodies, target):
     return ops
 
 
+def sites_real(bodies, target):
+    """the calls whose operator is the global `target`, per call SITE: [(marker, opcode)] in code order.  marker = the
+    accumulator increment pushed among the operands of this call if it is a marker (sibling self-call), else 0 (the
+    call X of the loop itself and the constant calls of the partner procedures)."""
+    out = []
+    for b in bodies:
+        mark = 0
+        for k, i in enumerate(b):
+            if i[1] == "PUSH" and isinstance(i[2], list) and len(i[2]) == 2 and i[2][0] == "int":
+                try:
+                    v = int(i[2][1])
+                except ValueError:
+                    continue
+                if MARK0 < v < MARK0 + 100:
+                    mark = v
+            elif i[1] in ("CALL", "TAIL-CALL") and k > 0 and b[k - 1][1] in ("GLOBAL-REF", "GLOBAL-KNOWN-REF") and b[k - 1][2] == target:
+                out.append((mark, i[1]))
+                mark = 0
+    return out
+
+
+def _max_lit(t):
+    if isinstance(t, bool):
+        return 0
+    if isinstance(t, int):
+        return t
+    if isinstance(t, list):
+        return max([_max_lit(y) for y in t] + [0])
+    return 0
+
+
+def surface_sites(forms):
+    """R7RS 3.5 read off the SURFACE program (derived forms as written, not their expansion).
+    Returns {(callee, marker): [(flag, space)]} for every call of a loop procedure (REC_NAMES, directly or through
+    apply; marker as in sites_real), where
+      flag  = True: the call is in tail position with respect to the innermost enclosing lambda / procedure body, so
+              the instruction must be TAIL-CALL; False: R7RS says it is not (operand, operator, test, set! value,
+              non-last sequence element, binding init, do step / command, ..), so it must be CALL; None: R7RS does not
+              fix the instruction (a tail position of a binding / derived form that itself stands in a non-tail
+              position: chibi expands let, do, named let, or, case into lambda bodies, inside which the call is a tail
+              call although the form is not),
+      space = True: executing this call continues the loop in constant space (the call and every enclosing lambda
+              between it and the loop procedure's body are called in tail position); False: it pushes a frame per
+              iteration; None: unknown (inside a lambda that is not called on the spot)."""
+    out = {}
+
+    def site(e):
+        op = e[0]
+        while isinstance(op, list) and op and op[0] == "begin":
+            op = op[-1]
+        if not isinstance(op, str):
+            return None
+        if op in REC_NAMES:
+            if len(e) > 1 and e[1] == "n":
+                return None                       # (loop n 0): the call that starts a local loop, not a recursive call
+            name = op
+        elif op == "apply" and len(e) > 1 and e[1] in REC_NAMES:
+            name = "apply"
+        else:
+            return None
+        m = _max_lit(e[1:])
+        return (name, m if MARK0 < m < MARK0 + 100 else 0)
+
+    def dl(flag):
+        return None if flag is False else flag
+
+    def seq(es, flag, space):
+        for x in es[:-1]:
+            w(x, False, False)
+        if es:
+            w(es[-1], flag, space)
+
+    def w(e, flag, space):
+        if not isinstance(e, list) or not e:
+            return
+        h = e[0]
+        if h == "quote":
+            return
+        if h == "if":
+            w(e[1], False, False)
+            for b in e[2:]:
+                w(b, flag, space)
+        elif h == "begin":
+            seq(e[1:], flag, space)
+        elif h == "set!":
+            w(e[2], False, False)
+        elif h == "define":
+            if isinstance(e[1], list):
+                seq(e[2:], True, True)            # a procedure definition: its body is the body of a loop procedure
+            else:
+                v = e[2]
+                if (isinstance(v, list) and len(v) == 3 and v[0] == "let" and isinstance(v[1], list)
+                        and isinstance(v[2], list) and v[2] and v[2][0] == "lambda"):
+                    for b in v[1]:                # (define f (let ((state ..)) (lambda ..))): a procedure definition too
+                        w(b[1], False, False)
+                    seq(v[2][2:], True, True)
+                else:
+                    w(v, False, False)
+        elif h == "lambda":
+            seq(e[2:], True, None)
+        elif h in ("let", "let*", "letrec", "letrec*"):
+            named = isinstance(e[1], str)
+            for b in (e[2] if named else e[1]):
+                w(b[1], False, False)
+            seq(e[3:] if named else e[2:], dl(flag), space)
+        elif h == "do":
+            for b in e[1]:
+                for x in b[1:]:
+                    w(x, False, False)
+            w(e[2][0], False, False)
+            seq(e[2][1:], dl(flag), space)
+            for x in e[3:]:
+                w(x, False, False)
+        elif h in ("cond", "case"):
+            if h == "case":
+                w(e[1], False, False)
+            for cl in e[(2 if h == "case" else 1):]:
+                if h == "cond" and cl[0] != "else":
+                    w(cl[0], False, False)
+                if len(cl) >= 3 and cl[1] == "=>":
+                    f = cl[2]
+                    if isinstance(f, list) and f and f[0] == "lambda":
+                        seq(f[2:], True, space)   # the procedure is called in the position of the cond
+                    else:
+                        w(f, False, False)
+                else:
+                    seq(cl[1:], dl(flag), space)
+        elif h in ("and", "or"):
+            seq(e[1:], dl(flag), space)
+        elif h in ("when", "unless"):
+            w(e[1], False, False)
+            seq(e[2:], dl(flag), space)
+        else:
+            k = site(e)
+            if k is not None:
+                out.setdefault(k, []).append((flag, space))
+            if isinstance(h, list) and h and h[0] == "lambda":
+                seq(h[2:], True, space)           # ((lambda ..) ..): the body runs in the position of the application
+            else:
+                w(h, False, False)
+            for a in e[1:]:
+                w(a, False, False)
+
+    for f in forms:
+        w(f, False, False)
+    return out
+
+
 def ceil_div(a, b):
     return -((-a) // b)
+
+
+def runenv(d):
+    """environment of a replay command: without the module path the harness has no derived forms (cond, case, ..)"""
+    return "CHIBI_IGNORE_SYSTEM_PATH=1 CHIBI_MODULE_PATH=%s/lib LD_LIBRARY_PATH=%s" % (d, d)
 
 
 def sq(s):
@@ -349,7 +540,7 @@ def run(ctx):
     # ------------------------------------------------------------------ the programs
     cases = []          # (contexts, siblings, callee, exit kind, family)
     for c in CONTEXTS:                                   # every context with the default sibling x every callee
-        for callee in CALLEES:
+        for callee in CALLEES + TOPLET:
             cases.append(([c], None, callee, "value", "ctx"))
     n = 0
     for c in tails:                                      # the product: tail context x sibling (callee and exit rotate)
@@ -357,6 +548,8 @@ def run(ctx):
             if compatible(c, sb):
                 n += 1
                 cases.append(([c], [sb], CALLEES[n % len(CALLEES)], EXITS[(n // 3) % len(EXITS)], "sib"))
+                # ... and once more where the simplifier does not remove or fold the sibling
+                cases.append(([c], [sb], TOPLET[n % len(TOPLET)], EXITS[(n // 5) % len(EXITS)], "sib-toplet"))
     for ek in EXITS[1:]:                                 # every exit form x callee
         for callee in CALLEES:
             cases.append(([tails[0]], None, callee, ek, "exit"))
@@ -371,7 +564,7 @@ def run(ctx):
         if rng.random() < 0.1:
             cs[-1] = rng.choice([c for c in CONTEXTS if not c[1]])
         sbs = [rng.choice([sb for sb in SIBLINGS if compatible(c, sb)]) for c in cs]
-        cases.append((cs, sbs, rng.choice(CALLEES), rng.choice(EXITS), "spine"))
+        cases.append((cs, sbs, rng.choice(CALLEES if rng.random() < 0.7 else TOPLET), rng.choice(EXITS), "spine"))
     seen, uniq = set(), []
     for cs in cases:
         k = (tuple(c[0] for c in cs[0]), tuple(s[0] for s in cs[1]) if cs[1] else None, cs[2], cs[3])
@@ -381,7 +574,9 @@ def run(ctx):
     cases = uniq
     # ------------------------------------------------------------------ inner: bytecode
     # non-tail controls leave by value; a sibling that calls `apply` would be mistaken for the recursive call through apply
-    cases = [(cs, sbs, {"apply": "fixed", "apply-rest": "rest-used", "apply8": "fixed8"}.get(callee, callee) if sbs and any(x[0] == "apply" for x in sbs) else callee,
+    noapply = {"apply": "fixed", "apply-rest": "rest-used", "apply8": "fixed8", "apply40": "fixed20"}
+    noapply.update(dict(("toplet:" + a, "toplet:" + b) for a, b in list(noapply.items())))
+    cases = [(cs, sbs, noapply.get(callee, callee) if sbs and any(x[0] == "apply" for x in sbs) else callee,
               ek if all(c[1] for c in cs) else "value", fam) for cs, sbs, callee, ek, fam in cases]
     small = [loop_program(cs, callee, 5, False, sbs, ek) for cs, sbs, callee, ek, _ in cases]
     texts = [" ".join(K.scm(f) for f in forms) for forms, _ in small]
@@ -422,9 +617,9 @@ def run(ctx):
                 f["unsupported"] = str(e)
             ent["forms"].append(f)
     mout = ctx.run_model(exe, mreq) if mreq else []
-    replay_fmt = "echo 'PROG %s' | LD_LIBRARY_PATH=" + d + " " + d + "/embed_c03 | grep -E '^(B|V|E) '"
+    replay_fmt = "echo 'PROG %s' | " + runenv(d) + " " + d + "/embed_c03 | grep -E '^(B|V|E) '"
     bad_inner = []
-    nmodel = nunsupported = 0
+    nmodel = nunsupported = nsites = 0
     for idx, ent in enumerate(plan):
         ctx.count(1, key=("inner", ent["text"]), nontrivial=True)
         isloop = idx < nloops
@@ -456,17 +651,36 @@ def run(ctx):
                     ctx.broken("correspondence:calls", "call sequence of the real bytecode differs from the model generator for %s: real %s model %s"
                                % (ent["text"][:300], real[:300], model[:300]))
             continue
-        # the recursive call inside the loop body (the last form's own call of loop is at top level: ignore CALL/TAIL there)
-        inner_ops = []
-        for f in ent["forms"][:-1]:
-            inner_ops += calls_to(f["bodies"], ent["target"])
-        want = "TAIL-CALL" if ent["tail"] else "CALL"
+        # the recursive calls inside the procedure bodies (the last form's own call of the loop is at top level: ignored),
+        # per call SITE: the flag R7RS 3.5 gives the site in the surface program against the instruction of that site.
+        # Only X is ever executed (sibling self-calls stand in never-executed slots), so the expected outcome of the run
+        # (constant space or growth) is decided by X alone, whatever the flags of the other sites are.
+        surf = surface_sites(small[idx][0][:-1])
+        xkey = (ent["target"] or "loop", 0)
+        xs = surf.get(xkey, [])
+        if len(xs) != 1 or xs[0][0] is None or xs[0][1] is None or xs[0][0] != ent["tail"] or xs[0][1] != ent["tail"]:
+            # self-check of the plugin: the context table (tail / non-tail context) against R7RS 3.5 walked over the program
+            ctx.broken("context-table", "surface_sites finds %s for the call of the loop, the context table says %s: %s"
+                       % (xs, ent["tail"], ent["text"][:300]))
+            continue
         if ent["target"] is None:
             # local loop procedure (named let / internal define): call-sequence comparison and depth probe only
             if ent.get("model_diff"):
                 bad_inner.append(ent)
-        elif not inner_ops or any(o != want for o in inner_ops):
-            ent["flag_diff"] = (want, inner_ops)
+            continue
+        want, got, nx = [], [], 0
+        for name in sorted(set(k[0] for k in surf)):
+            for f in ent["forms"][:-1]:
+                for mark, op in sites_real(f["bodies"], name):
+                    flags = set(fl for fl, _ in surf.get((name, mark), [(None, None)]))
+                    nx += (name, mark) == xkey
+                    nsites += 1
+                    if None in flags or len(flags) != 1:
+                        continue                 # R7RS does not fix the instruction of this site
+                    want.append("TAIL-CALL" if True in flags else "CALL")
+                    got.append(op)
+        if nx == 0 or want != got:
+            ent["flag_diff"] = (want, got)
             bad_inner.append(ent)
         elif ent.get("model_diff"):
             bad_inner.append(ent)
@@ -480,7 +694,7 @@ def run(ctx):
     # single-context programs with the large N
     lines, meta = [], []
     cand = [i for i in range(nloops) if cases[i][4] == "ctx" and cases[i][0][0][1]
-            and cases[i][2] == CALLEES[CONTEXTS.index(cases[i][0][0]) % len(CALLEES)]]
+            and cases[i][2] == (CALLEES + TOPLET)[CONTEXTS.index(cases[i][0][0]) % len(CALLEES + TOPLET)]]
     bigset = set(rng.sample(cand, min(nbig, len(cand))))
     for i in range(nloops):
         cs, sbs, callee, ek, fam = cases[i]
@@ -501,7 +715,7 @@ def run(ctx):
         ctx.count(1, key=("outer", line), nontrivial=True)
         if out != "V (%s . 0)" % value:
             ctx.violation("tail:stack-grows:macro-loop:" + name, input=line[4:], expected="V (%s . 0)  (value, depth at a late iteration minus depth at the first = 0)" % value,
-                          observed=out, replay="echo '%s' | LD_LIBRARY_PATH=%s %s/embed_c03" % (sq(line), d, d))
+                          observed=out, replay="echo '%s' | %s %s/embed_c03" % (sq(line), runenv(d), d))
     answers = answers[:len(lines)]
     suspects = []
     results = {}
@@ -541,14 +755,15 @@ def run(ctx):
         sig = "tail:stack-grows:" + ent["key"].split("/")[1] + ":" + ent["key"].split("/")[0].split("+")[0]
         ctx.violation(sig, input=line[4:], expected="V (%d . 0)  (value, depth at iteration N-1 minus depth at iteration 1... = 0)" % n,
                       observed=out, siblings=ent["sib"],
-                      replay="echo '%s' | LD_LIBRARY_PATH=%s %s/embed_c03" % (sq(line), d, d))
+                      replay="echo '%s' | %s %s/embed_c03" % (sq(line), runenv(d), d))
         ent["reported"] = True
     for ent in bad_inner:
         if ent.get("reported"):
             continue
         if ent.get("flag_diff"):
-            ctx.broken("correspondence:tail-flag", "recursive call compiled as %s, R7RS 3.5 says %s for %s siblings %s (no stack growth observed): %s"
-                       % (ent["flag_diff"][1], ent["flag_diff"][0], ent["key"], ent["sib"], ent["text"][:300]))
+            ctx.broken("correspondence:tail-flag", "calls of the loop procedures compiled as %s, R7RS 3.5 says %s (per call site, code order) for %s siblings %s (the executed call %s: no unexpected stack growth observed): %s"
+                       % (ent["flag_diff"][1], ent["flag_diff"][0], ent["key"], ent["sib"],
+                          "is a tail call" if ent["tail"] else "is not a tail call", ent["text"][:400]))
         else:
             ctx.broken("correspondence:calls", "call sequence of the real bytecode differs from the model generator for %s: real %s model %s"
                        % (ent["text"][:300], ent["model_diff"][0][:300], ent["model_diff"][1][:300]))
@@ -581,7 +796,7 @@ def run(ctx):
         if o[2] != "V %d" % (dd + kk) or o[3] != "V 3":
             ctx.violation("stack:ensure-min-size", input="(deepapply %d %d)  ; apply of a %d-element list %d frames deep" % (dd, kk, kk, dd),
                           expected="V %d, then V 3" % (dd + kk), observed="%s, %s" % (o[2][:300], o[3][:100]),
-                          replay="printf '%%s\\n' '%s' '%s' 'TOP (deepapply %d %d)' | ASAN_OPTIONS=detect_leaks=0 LD_LIBRARY_PATH=%s %s/embed_c03" % (big[0], big[1], dd, kk, da, da))
+                          replay="printf '%%s\\n' '%s' '%s' 'TOP (deepapply %d %d)' | ASAN_OPTIONS=detect_leaks=0 %s %s/embed_c03" % (big[0], big[1], dd, kk, runenv(da), da))
     # model of the growth arithmetic: the repaired policy always leaves room (spot check of the extracted function)
     reqs = []
     for top, n, ln in [(600, 2064, 1024), (1000, 100, 1024), (1023990, 100, 1024000), (10, 5000, 1024), (500000, 600000, 524288)]:
@@ -602,7 +817,7 @@ def run(ctx):
     ctx.cov["generator_distribution"] = dict(loop_programs=len(cases), by_callee=dist, by_family=fams, tail_contexts=len(tails),
                                              siblings=len(SIBLINGS), non_tail_controls=len(CONTEXTS) - len(tails),
                                              random_typed_programs=nrand, forms_compared_with_model=nmodel,
-                                             forms_outside_model=nunsupported, iterations_big=N,
+                                             forms_outside_model=nunsupported, call_sites_flag_checked=nsites, iterations_big=N,
                                              programs_with_big_N=len([m for m in meta if m[1] == N]), iterations_small=NS,
                                              deep=deep_report, deepapply_grid=len(grid))
     ctx.sample(dict(kind="loop", program=texts[0], outcome=plan[0]["out"]))
@@ -681,7 +896,7 @@ def deep_recursion(ctx, h, exe, d, maxs, inits, rng):
             model = mo[j]
             ctx.count(1, key=("deep", name, k), nontrivial=True)
             ctx.cov["traces_validated_against_impl"] += 1
-            replay = "printf '%%s\\n' 'TOP (define t0 0)' 'TOP %s' 'TOP (let ((r %s)) (list r t0 (verif-stack-length)))' 'TOP (+ 1 2)' | LD_LIBRARY_PATH=%s %s/embed_c03" % (defn, callfmt % k, d, d)
+            replay = "printf '%%s\\n' 'TOP (define t0 0)' 'TOP %s' 'TOP (let ((r %s)) (list r t0 (verif-stack-length)))' 'TOP (+ 1 2)' | %s %s/embed_c03" % (defn, callfmt % k, runenv(d), d)
             need = c0 + (k - 1) * per                  # top at the deepest stack check
             val = (k if name != "deeprest" else k)
             m = re.match(r"V \((\d+) (\d+) (\d+)\)$", r)
